@@ -162,7 +162,10 @@ where
     // Maximum number of adjacent out-of-order pairs that will get shifted.
     const MAX_STEPS: usize = 5;
     // If the slice is shorter than this, don't shift any elements.
+    #[cfg(not(nucleo_verif_small))]
     const SHORTEST_SHIFTING: usize = 50;
+    #[cfg(nucleo_verif_small)]
+    const SHORTEST_SHIFTING: usize = 6;
 
     let len = v.len();
     let mut i = 1;
@@ -267,7 +270,10 @@ where
     F: Fn(&T, &T) -> bool,
 {
     // Number of elements in a typical block.
+    #[cfg(not(nucleo_verif_small))]
     const BLOCK: usize = 128;
+    #[cfg(nucleo_verif_small)]
+    const BLOCK: usize = 4;
 
     // The partitioning algorithm repeats the following steps until completion:
     //
@@ -696,7 +702,10 @@ where
 {
     // Minimum length to choose the median-of-medians method.
     // Shorter slices use the simple median-of-three method.
+    #[cfg(not(nucleo_verif_small))]
     const SHORTEST_MEDIAN_OF_MEDIANS: usize = 50;
+    #[cfg(nucleo_verif_small)]
+    const SHORTEST_MEDIAN_OF_MEDIANS: usize = 6;
     // Maximum number of swaps that can be performed in this function.
     const MAX_SWAPS: usize = 4 * 3;
 
@@ -778,10 +787,16 @@ where
     F: Fn(&T, &T) -> bool + Sync,
 {
     // Slices of up to this length get sorted using insertion sort.
+    #[cfg(not(nucleo_verif_small))]
     const MAX_INSERTION: usize = 20;
+    #[cfg(nucleo_verif_small)]
+    const MAX_INSERTION: usize = 3;
     // If both partitions are up to this length, we continue sequentially. This number is as small
     // as possible but so that the overhead of Rayon's task scheduling is still negligible.
+    #[cfg(not(nucleo_verif_small))]
     const MAX_SEQUENTIAL: usize = 2000;
+    #[cfg(nucleo_verif_small)]
+    const MAX_SEQUENTIAL: usize = 6;
 
     // True if the last partitioning was reasonably balanced.
     let mut was_balanced = true;
@@ -892,4 +907,38 @@ where
     let limit = usize::BITS - v.len().leading_zeros();
 
     recurse(v, &is_less, None, limit, canceled)
+}
+
+// verification hook: gives the in-crate harnesses access to the private building blocks
+#[cfg(nucleo_verif)]
+pub(crate) mod verif_access {
+    pub(crate) fn heapsort<T, F: Fn(&T, &T) -> bool>(v: &mut [T], is_less: &F) {
+        super::heapsort(v, is_less)
+    }
+    pub(crate) fn insertion_sort<T, F: Fn(&T, &T) -> bool>(v: &mut [T], is_less: &F) {
+        super::insertion_sort(v, is_less)
+    }
+    pub(crate) fn partial_insertion_sort<T, F: Fn(&T, &T) -> bool>(v: &mut [T], is_less: &F) -> bool {
+        super::partial_insertion_sort(v, is_less)
+    }
+    pub(crate) fn partition<T, F: Fn(&T, &T) -> bool>(v: &mut [T], pivot: usize, is_less: &F) -> (usize, bool) {
+        super::partition(v, pivot, is_less)
+    }
+    pub(crate) fn partition_equal<T, F: Fn(&T, &T) -> bool>(v: &mut [T], pivot: usize, is_less: &F) -> usize {
+        super::partition_equal(v, pivot, is_less)
+    }
+    pub(crate) fn choose_pivot<T, F: Fn(&T, &T) -> bool>(v: &mut [T], is_less: &F) -> (usize, bool) {
+        super::choose_pivot(v, is_less)
+    }
+    pub(crate) fn break_patterns<T>(v: &mut [T]) {
+        super::break_patterns(v)
+    }
+    pub(crate) fn recurse<T: Send, F: Fn(&T, &T) -> bool + Sync>(
+        v: &mut [T],
+        is_less: &F,
+        limit: u32,
+        canceled: &std::sync::atomic::AtomicBool,
+    ) -> bool {
+        super::recurse(v, is_less, None, limit, canceled)
+    }
 }
